@@ -14,6 +14,7 @@ import (
 	"context"
 	"errors"
 	"fmt"
+	"strings"
 	"sync"
 	"time"
 
@@ -448,4 +449,198 @@ func finishObs(c *Case, o *obs, svc *advanced.Service, base int, can *canary) {
 			o.reschedOK = true
 		}
 	}
+}
+
+// ---------------------------------------------------------------------------
+// Multi: several one-off jobs whose names share prefixes, all due at the same
+// instant clearly ahead; CancelJobs(prefix) is called once.  Reference: exactly
+// the jobs whose name has the prefix (strings.HasPrefix) are cancelled: they are
+// unlisted at once and never run; every other job stays listed and runs once.
+
+// Multi is the CancelJobs program shape.
+type Multi struct {
+	Names  []string `json:"names"`
+	Prefix string   `json:"prefix"`
+}
+
+var multiNames = []string{
+	"Attestations for slot 12",
+	"Attestations for slot 123",
+	"Attestations for slot 12 x",
+	"Attestations for slot 13",
+	"Attestations",
+	"Attest",
+	"Sync committee messages for slot 12",
+	"Other job",
+}
+
+func genMulti(t *rapid.T, c *Case) {
+	n := rapid.IntRange(2, 6).Draw(t, "nNames")
+	perm := rapid.Permutation(multiNames).Draw(t, "names")
+	m := &Multi{Names: append([]string(nil), perm[:n]...)}
+	src := rapid.SampledFrom(m.Names).Draw(t, "prefixOf")
+	switch rapid.IntRange(0, 5).Draw(t, "prefixCut") {
+	case 0:
+		m.Prefix = src
+	case 1:
+		m.Prefix = ""
+	default:
+		m.Prefix = src[:rapid.IntRange(1, len(src)).Draw(t, "cut")]
+	}
+	c.Multi = m
+	c.Periodic = false
+	c.TicksUs = []int64{40000}
+	c.PeriodUs, c.HorizonUs = 0, 0
+	c.Ops, c.Resched, c.Recycle = nil, false, nil
+	c.Reps = (reps() + 1) / 2
+}
+
+type multiObs struct {
+	callEnd      time.Duration
+	parked       bool
+	existsAfter  []bool // JobExists right after CancelJobs returned
+	listedAfter  []bool
+	runs         []int
+	existsAtEnd  []bool
+	callPanicked string
+}
+
+func runMulti(c *Case, base int, can *canary, leaked map[string]bool, leakedSelect int) (*obs, error) {
+	o := &obs{parkedAt: -1, mu: &multiObs{}}
+	mo := o.mu
+	bg := context.Background()
+	svc, err := advanced.New(bg, advanced.WithLogLevel(zerolog.Disabled))
+	if err != nil {
+		return nil, err
+	}
+	ctx, cancelCtx := context.WithCancel(bg)
+	defer cancelCtx()
+	can.reset()
+	names := c.Multi.Names
+	recs := make([]*recorder, len(names))
+	t0 := time.Now()
+	o.ticks = []time.Duration{us(c.TicksUs[0])}
+	at := t0.Add(o.ticks[0])
+	for i, n := range names {
+		recs[i] = &recorder{t0: t0, dur: us(c.JobDurUs)}
+		if err := svc.ScheduleJob(ctx, "c02", n, at, recs[i].job); err != nil {
+			return nil, fmt.Errorf("schedule %q: %w", n, err)
+		}
+	}
+	if c.Mode != "M1" {
+		// all job goroutines parked in their select
+		for i := 0; i < 25; i++ {
+			cnt := 0
+			for _, g := range schedGoroutines() {
+				if g.state == "select" {
+					cnt++
+				}
+			}
+			if cnt >= leakedSelect+len(names) {
+				mo.parked = true
+				break
+			}
+			time.Sleep(200 * time.Microsecond)
+		}
+	}
+	func() {
+		wd := time.AfterFunc(stuckAfter, func() { callWatchdog("canceljobs") })
+		defer wd.Stop()
+		defer func() {
+			if p := recover(); p != nil {
+				mo.callPanicked = fmt.Sprint(p)
+			}
+		}()
+		svc.CancelJobs(bg, c.Multi.Prefix)
+	}()
+	mo.callEnd = time.Since(t0)
+	listed := map[string]bool{}
+	for _, n := range svc.ListJobs(bg) {
+		listed[n] = true
+	}
+	for _, n := range names {
+		mo.existsAfter = append(mo.existsAfter, svc.JobExists(bg, n))
+		mo.listedAfter = append(mo.listedAfter, listed[n])
+	}
+	// every job that is still alive is due by runtime+margin
+	end := at.Add(margin)
+	allCancelled := true
+	for _, n := range names {
+		if !strings.HasPrefix(n, c.Multi.Prefix) {
+			allCancelled = false
+		}
+	}
+	progress := func() [3]int {
+		r, cur := 0, 0
+		for _, rc := range recs {
+			rc.mu.Lock()
+			r += len(rc.runs)
+			cur += rc.cur
+			rc.mu.Unlock()
+		}
+		return [3]int{0, r, cur}
+	}
+	var stuck *schedGoroutine
+	o.settled, stuck = settle(base, end, can, leaked, progress)
+	if stuck != nil {
+		o.stuck, o.stuckDump = stuck.state, stuck.text
+	}
+	if stuck == nil && o.settled && allCancelled {
+		// nothing should be left; look again when the runtime is clearly over
+		if d := time.Until(end); d > 0 {
+			time.Sleep(d)
+			o.settled = waitGoroutines(base, settleCeiling)
+		}
+	}
+	for i, n := range names {
+		rs, _ := recs[i].snapshot()
+		mo.runs = append(mo.runs, len(rs))
+		mo.existsAtEnd = append(mo.existsAtEnd, svc.JobExists(bg, n))
+		for _, r := range rs {
+			if r.end < 0 || r.end-r.start > us(c.JobDurUs)+perturbedGap {
+				o.perturbed = true
+			}
+		}
+	}
+	if can.gap() > perturbedGap {
+		o.perturbed = true
+	}
+	return o, nil
+}
+
+func judgeMulti(c *Case, o *obs) []verdict {
+	mo := o.mu
+	var vs []verdict
+	if mo.callPanicked != "" {
+		return append(vs, verdict{"panic:canceljobs", "CancelJobs panicked: " + mo.callPanicked})
+	}
+	if !o.settled || o.stuck != "" {
+		return vs
+	}
+	what := fmt.Sprintf("jobs %q due at %v, CancelJobs(%q) returned at %v; JobExists after the call %v, runs %v, JobExists at the end %v", c.Multi.Names, o.ticks[0], c.Multi.Prefix, mo.callEnd, mo.existsAfter, mo.runs, mo.existsAtEnd)
+	clearly := mo.callEnd+margin <= o.ticks[0] && !o.perturbed && (c.Mode == "M1" || mo.parked)
+	for i, n := range c.Multi.Names {
+		if strings.HasPrefix(n, c.Multi.Prefix) {
+			if mo.existsAfter[i] || mo.listedAfter[i] {
+				vs = append(vs, verdict{"canceljobs-matching-job-still-listed", fmt.Sprintf("job %q has the prefix and is still listed after CancelJobs: %s", n, what)})
+			} else if clearly && mo.runs[i] > 0 {
+				vs = append(vs, verdict{"canceljobs-matching-job-ran", fmt.Sprintf("job %q has the prefix, was cancelled clearly before its time, and ran: %s", n, what)})
+			}
+			continue
+		}
+		pendingThen := mo.callEnd+margin <= o.ticks[0]
+		if pendingThen && (!mo.existsAfter[i] || !mo.listedAfter[i]) {
+			vs = append(vs, verdict{"canceljobs-other-job-removed", fmt.Sprintf("job %q does not have the prefix and is no longer listed after CancelJobs: %s", n, what)})
+		}
+		if mo.runs[i] != 1 {
+			vs = append(vs, verdict{"canceljobs-other-job-not-run-once", fmt.Sprintf("job %q does not have the prefix and ran %d times: %s", n, mo.runs[i], what)})
+		}
+		if mo.existsAtEnd[i] {
+			vs = append(vs, verdict{"name-still-listed-after-finish", fmt.Sprintf("job %q is still listed after it finished: %s", n, what)})
+		}
+	}
+	if len(vs) > 1 {
+		vs = vs[:1]
+	}
+	return vs
 }
